@@ -33,7 +33,7 @@ CanEnd(p) == LET e == Ev(p)  t == T(e.c, e.k) IN
              /\ e.out = Out(t, In(Cfg, t, OutFn))
 CanFinal(p) == LET e == Ev(p) IN
                /\ e.e = "Final" /\ e.p = p /\ e.i \in 0..(NA(Cfg) - 1) /\ HasFinal(Cfg, e.i) /\ Owner(Cfg, e.i) = p
-               /\ e.i \notin finals /\ Writer(Cfg, e.i) \in ended /\ e.v = OutOr(Writer(Cfg, e.i))
+               /\ e.i \notin finals /\ Writer(Cfg, e.i) \in ended /\ e.v = FinalVal(Cfg, e.i, OutOr)
 CanDone(p) == LET e == Ev(p) IN
               /\ e.e = "Done" /\ e.p = p /\ p \notin done
               /\ \A t \in Tasks(Cfg) : Place(Cfg, t) = p => t \in ended
